@@ -170,30 +170,36 @@ def run_suite(pid, suite, tier, seed, fuzzing=False):
     if rc != 0:
         raise RuntimeError(f"harness failed on suite {suite}: {out[-2000:]}")
     cases, impl, model = f"{wd}/{suite}.cases", f"{wd}/{suite}.impl", f"{wd}/{suite}.model"
-    # shard the model run over the cores
-    lines = open(cases).read().split("\n")
-    if lines and lines[-1] == "":
-        lines.pop()
-    nsh = max(1, min(16, len(lines) // 8))
+    # shard the model run over the cores (round-robin, streamed: the thorough suites are gigabytes)
+    nlines = 0
+    with open(cases) as f:
+        for _ in f: nlines += 1
+    nsh = max(1, min(16, nlines // 8))
+    outs = [open(f"{wd}/{tag}.shard{k}.cases", "w") for k in range(nsh)]
+    with open(cases) as f:
+        for i, line in enumerate(f):
+            outs[i % nsh].write(line if line.endswith("\n") else line + "\n")
+    for o in outs: o.close()
     procs = []
     for k in range(nsh):
-        part = lines[k::nsh]
         cf = f"{wd}/{tag}.shard{k}.cases"
-        open(cf, "w").write("\n".join(part) + ("\n" if part else ""))
         procs.append((k, subprocess.Popen([DRIVER, cf, f"{wd}/{tag}.shard{k}.model", f"{wd}/{tag}.shard{k}.spec"] + (["fuzzing"] if fuzzing else []),
                                           stdout=subprocess.PIPE, stderr=subprocess.STDOUT)))
     for k, p in procs:
-        out, _ = p.communicate(timeout=7200)
+        out, _ = p.communicate(timeout=14400)
         if p.returncode != 0:
             raise RuntimeError(f"driver failed on suite {suite} shard {k}: {out.decode()[-2000:]}")
-    parts_m = [open(f"{wd}/{tag}.shard{k}.model").read().split("\n") for k in range(nsh)]
-    parts_s = [open(f"{wd}/{tag}.shard{k}.spec").read().split("\n") for k in range(nsh)]
+        os.remove(f"{wd}/{tag}.shard{k}.cases")
+    ms = [open(f"{wd}/{tag}.shard{k}.model") for k in range(nsh)]
+    ss = [open(f"{wd}/{tag}.shard{k}.spec") for k in range(nsh)]
     with open(model, "w") as fm, open(model + ".spec", "w") as fs:
-        for i in range(len(lines)):
-            fm.write(parts_m[i % nsh][i // nsh] + "\n")
-            fs.write(parts_s[i % nsh][i // nsh] + "\n")
+        for i in range(nlines):
+            lm = ms[i % nsh].readline(); ls = ss[i % nsh].readline()
+            fm.write(lm if lm.endswith("\n") else lm + "\n")
+            fs.write(ls if ls.endswith("\n") else ls + "\n")
     for k in range(nsh):
-        for ext in ("cases", "model", "spec"):
+        ms[k].close(); ss[k].close()
+        for ext in ("model", "spec"):
             os.remove(f"{wd}/{tag}.shard{k}.{ext}")
     return cases, impl, model
 
